@@ -489,6 +489,22 @@ class Gen:
             if t:
                 # heights strictly increasing above the youngest possible tip (dates <= 2)
                 o["internal_heights"] = self.heights(path + ["internal_heights"], n - 1)
+            elif self.chance(0.4):
+                # keep_branch_lengths: the lengths written in the newick string are assigned to the
+                # (possibly shared) branch-length parameter while the tree is loaded
+                m = 2 * n - 3
+                w = [self.d(logu(0.05, 5.0)) for _ in range(2 * n - 2)]
+                lab = lambda i: "%s:%r" % (nm[i], w[i])  # noqa
+                nwk = "(%s,%s)" % (lab(0), lab(1))
+                for k in range(2, n):
+                    nwk = "(%s:%r,%s)" % (nwk, w[n + k - 2], lab(k))
+                o["newick"] = nwk + ";"
+                o["keep_branch_lengths"] = True
+                p = path + ["branch_lengths"]
+                o["branch_lengths"] = self.ref_or(
+                    p, lambda x: x.kind == "vec" and x.cls == "Parameter" and getattr(x, "updatable", False) and x.n == m and x.dom in (POS, REAL),
+                    0.5, lambda: self.new_leaf(p, POS, m))
+                self.features.add("keep_branch_lengths")
             else:
                 o["branch_lengths"] = self.vec(POS, 2 * n - 3, path + ["branch_lengths"], 1)
             return self.done(o, "tree", path, n=n, timed=t)
